@@ -34,9 +34,9 @@ func runC19(opt *Options) int {
 			{Name: "K7.filescan", Pkg: "comments", Harness: "VerifHarness_C19_ParseDocsFiles", Unwind: 64, E2E: "c19"},
 			{Name: "K7.nomarker", Pkg: "comments", Harness: "VerifHarness_C19_NoMarker", Unwind: 64},
 		},
-		Funcs:  []string{"comments.parseGenDecl", "comments.parseFunctions", "comments.parseInterface", "comments.parseInterfaceMethods", "comments.parseRawLines", "pkgload.(*PackageLoader).localConfig (doc comments of custom functions)", "go/ast (Pos, Ident.String, ... executed like the code under test)", "parse.CommentToString", "parse.stripTrailingWhitespace", "parse.isWhitespace", "parse.SettingLines", "parse.Command"},
+		Funcs:     []string{"comments.parseGenDecl", "comments.parseFunctions", "comments.parseInterface", "comments.parseInterfaceMethods", "comments.parseRawLines", "pkgload.(*PackageLoader).localConfig (doc comments of custom functions)", "go/ast (Pos, Ident.String, ... executed like the code under test)", "parse.CommentToString", "parse.stripTrailingWhitespace", "parse.isWhitespace", "parse.SettingLines", "parse.Command"},
 		E2EAlways: "c19",
-		Bounds: fmt.Sprintf("comment groups of <= 2 comments; `//` body <= %d bytes, `/* */` body <= %d bytes with <= 2 newlines (group of two comments: each body = <=%d symbolic bytes + `goverter:` + <=%d symbolic bytes + <=%d symbolic bytes, in the layouts line/line, line/block, block/line, two-line block); every byte symbolic ASCII; unwind asserted", line, block, gl, gk, gt),
+		Bounds:    fmt.Sprintf("comment groups of <= 2 comments; `//` body <= %d bytes, `/* */` body <= %d bytes with <= 2 newlines (group of two comments: each body = <=%d symbolic bytes + `goverter:` + <=%d symbolic bytes + <=%d symbolic bytes, in the layouts line/line, line/block, block/line, two-line block); every byte symbolic ASCII; unwind asserted", line, block, gl, gk, gt),
 		Assume: []string{
 			"go/parser's guarantees on Comment.Text: `//` comments contain no newline, carriage returns are stripped, a block comment body does not contain its terminator",
 			"ASCII only: every symbolic byte < 0x80 (non-ASCII white space is outside the claim)",
